@@ -83,6 +83,14 @@ def c10 : List String := Id.run do
           out := out ++ [s!"slot {repr c.label} for {repr ty} {repr op} is wired to backend {repr (regOfSlot c.label ty op)} (needs {repr (verifiedForReg (regOfSlot c.label ty op))}) but its guards only establish {repr (c.guards.flatMap featsOfGuard)}"]
   return out
 
+/-- C10 composes `C09.slots_wired`: a slot bound to a routine of another backend runs instructions its guard did not verify -/
+def c10Wiring : List String := Id.run do
+  let mut out : List String := []
+  for r in safeRows do
+    if !safeRowOk safeArms r then
+      out := out ++ [s!"a dispatch slot of this safe function is not bound to the routine of the backend its guard verifies (so the selected routine may need features the dispatcher did not check): {repr r}"]
+  return out
+
 def c11 : List String := Id.run do
   let mut out : List String := []
   for r in exports do
@@ -120,7 +128,7 @@ def main (args : List String) : IO UInt32 := do
   let ws := match args with
     | ["C08"] => c08
     | ["C09"] => c09 ++ availabilityWitnesses
-    | ["C10"] => c10
+    | ["C10"] => c10 ++ c10Wiring
     | ["C11"] => c11
     | ["C14"] => c14
     | _ => []
